@@ -419,7 +419,11 @@ func runEnv(r *vf.Run, c *tcase, e *envSpec, ei int) {
 				defer wg.Done()
 				w.excuseErrors = excuse
 				for i := 0; i < ops; i++ {
-					w.step()
+					if e.readHeavy && w.rng.Chance(3, 4) {
+						w.opRead()
+					} else {
+						w.step()
+					}
 				}
 			}(w)
 		}
